@@ -44,6 +44,14 @@ m("M6", "C19", "CAP-fault", ("x/sao/keeper/msg_server_report_faults.go", "\tfaul
    "\tk.node.IncreaseReputation(ctx, msg.Creator, 1)\n\tfaultIds := make([]string, 0)\n"))
 m("M-fault-sp", "C19", "G-fault", ("x/sao/keeper/msg_server_report_faults.go", "if found && shard.Sp == fault.Provider {", "if found {"))
 m("M-selfrec", "C19", "G-selfrec", ("x/sao/keeper/msg_server_recover_faults.go", "if msg.Provider == msg.Creator && faultOrg.Provider == msg.Creator {", "if msg.Provider == msg.Creator {"))
+# ---------------------------------------------------------------- C17
+m("M25", "C17", "G-bind", ("x/did/keeper/msg_server_binding.go", "\t_, found = k.GetDid(ctx, accId)\n\tif found {", "\t_, found = k.GetDid(ctx, accId)\n\tif found && len(msg.Keys) == 0 {"))
+m("M26", "C17", "G-pay", ("x/did/keeper/msg_server_update_payment_address.go", "if caip10.Address != msg.Creator {", "if caip10.Address != msg.Creator && msg.Creator == \"\" {"))
+m("M-upd-pay", "C17", "G-upd", ("x/did/keeper/msg_server_update.go", "\t\t\tcaip10.Address == payAddr.Address {", "\t\t\tcaip10.Address == payAddr.Address && len(removeList) > 1 {"))
+m("M-bind-fresh", "C17", "G-bind", ("x/did/keeper/msg_server_binding.go", "if proof.Timestamp+EXPIRE_DURATION < uint64(now) {", "if proof.Timestamp+EXPIRE_DURATION < uint64(now) && rootDocId != \"\" && len(msg.Keys) > 0 {"))
+m("M-capdid", "C17", "CAP-did", ("x/sao/keeper/msg_server_store.go", "\tif proposal.PaymentDid != \"\" {\n\t\torder.PaymentDid = proposal.PaymentDid\n\t}\n", "\tif proposal.PaymentDid != \"\" {\n\t\torder.PaymentDid = proposal.PaymentDid\n\t\tk.did.SetKidForPayer(ctx, msg.Creator, proposal.PaymentDid)\n\t}\n"),
+  ("x/sao/types/expected_keepers.go", "\tValidDid(ctx sdk.Context, did string) error\n", "\tValidDid(ctx sdk.Context, did string) error\n\tSetKidForPayer(ctx sdk.Context, addr string, did string)\n"),
+  ("x/did/keeper/did_management.go", "func (k Keeper) ValidDid(", "func (k Keeper) SetKidForPayer(ctx sdk.Context, addr string, did string) {\n\tk.SetKid(ctx, types.Kid{Address: addr, Kid: did})\n}\n\nfunc (k Keeper) ValidDid("))
 # ---------------------------------------------------------------- C01 / C03
 m("M17", "C03", "D3", ("x/node/keeper/node.go", "func (k Keeper) SetNode(ctx sdk.Context, node types.Node) {\n",
    "var nodeCache = map[string]types.Node{}\n\nfunc (k Keeper) SetNode(ctx sdk.Context, node types.Node) {\n\tnodeCache[node.Creator] = node\n"))
